@@ -54,7 +54,12 @@ def generate(r, tier):
     sc["tool_prefix"] = [ops.gen_history(r, prog, r.randint(0, 6), weights={"read": 0, "save": 0, "load": 0, "restart": 0, "load_hand": 0}, sane=0.9)
                          for _ in range(r.randint(0, 2))]
     sc["initial"] = r.choice(["empty", "tool", "tool", "hand"])
-    sc["reqs"] = srvgen.gen_requests(r, prog, r.randint(1, 25 if big else 18), sc["version"], hand_n=len(sc["hand"]), tool_n=len(sc["tool_prefix"]))
+    # under policy kconfig (stale stored defaults are ignored and reported, nothing is pinned) also a file of another tree version
+    sc["prog_alt"] = kgen.evolve(r, prog) if (sc["policy"] == "kconfig" and r.random() < 0.5) else None
+    if sc["prog_alt"] and r.random() < 0.4:
+        sc["initial"] = "alt"
+    sc["reqs"] = srvgen.gen_requests(r, prog, r.randint(1, 25 if big else 18), sc["version"], hand_n=len(sc["hand"]), tool_n=len(sc["tool_prefix"]),
+                                     alt=bool(sc["prog_alt"]))
     sc["restart"] = r.random() < 0.5
     if r.random() < 0.3:
         # end on a pure `load`: "Send a load command or restart the server" are documented as equivalent (oracle c)
@@ -66,8 +71,10 @@ def generate(r, tier):
 
 
 def summarize(sc):
-    s = {k: v for k, v in sc.items() if k != "prog"}
+    s = {k: v for k, v in sc.items() if k not in ("prog", "prog_alt")}
     s["kconfig"] = kgen.render(sc["prog"])
+    if sc.get("prog_alt"):
+        s["kconfig_alt"] = kgen.render(sc["prog_alt"])
     return s
 
 
@@ -91,10 +98,20 @@ def prepare(sc, sb):
             common.server_save(n.k, os.path.join(sb, "tool_%d" % j))
         except Exception:
             pass
+    if sc.get("prog_alt"):
+        # a file the tool wrote under another version of the tree: its default-marked entries are stale for this one
+        try:
+            n = ops.KNode(sb, kgen.render(sc["prog_alt"]), parser=1, policy=sc.get("policy"), tag="alt")
+            ops.run_history(n, (sc.get("tool_prefix") or [[]])[0], (), None, None)
+            common.server_save(n.k, os.path.join(sb, "tool_alt"))
+        except Exception:
+            pass
     sdk = os.path.join(sb, "sdkconfig")
     init = sc.get("initial", "absent")
     src = None
-    if init == "tool" and sc.get("tool_prefix"):
+    if init == "alt" and sc.get("prog_alt"):
+        src = os.path.join(sb, "tool_alt")
+    elif init == "tool" and sc.get("tool_prefix"):
         src = os.path.join(sb, "tool_0")
     elif init == "hand" and sc.get("hand"):
         src = os.path.join(sb, "hand_0")
@@ -317,4 +334,8 @@ def reductions(sc):
             c = copy.deepcopy(sc)
             c[key] = []
             yield c
-    yield from common.prog_reductions(sc)
+    if sc.get("prog_alt") and sc.get("initial") != "alt" and not any(d.get("load") == ["alt"] for d in sc["reqs"] if isinstance(d, dict)):
+        c = copy.deepcopy(sc)
+        c["prog_alt"] = None
+        yield c
+    yield from common.prog_reductions(sc, keys=("prog", "prog_alt"))
